@@ -213,3 +213,24 @@ def method_events_ok(events):
 
 
 ORD = {"L": -1, "E": 0, "G": 1, "N": None}
+
+
+ASAN_TGT = os.path.join(WORK, "tgt", "d1-asan")
+ASAN_TRIPLE = "x86_64-unknown-linux-gnu"
+
+
+def run_asan(name, progs, timeout=900):
+    """build {bin: Program} with AddressSanitizer (nightly, release) and run; returns ({cid: Obs}, {bin: report}, dropped)"""
+    dropped, warns, _ = H.compile_programs(name, progs, toolchain="nightly", release=True, target_dir=ASAN_TGT,
+                                           rustflags="-Zsanitizer=address -Cforce-frame-pointers=yes",
+                                           extra_args=["--target", ASAN_TRIPLE])
+    res = H.run_programs(name, progs, release=True, target_dir=ASAN_TGT, triple=ASAN_TRIPLE, timeout=timeout,
+                         env=base_env({"ASAN_OPTIONS": "detect_leaks=0:halt_on_error=1"}))
+    obs, reports, dall = {}, {}, {}
+    for b in progs:
+        dall.update(dropped[b])
+    for b, (rc, o, err) in res.items():
+        obs.update(o)
+        if rc != 0 and "AddressSanitizer" in err:
+            reports[b] = err[:6000]
+    return obs, reports, dall
